@@ -31,6 +31,29 @@ CLAIMED = {
         "technique": "Coq proof by structural induction over expression trees in an abstract differential field + "
                      "per-case kernel-checked equivalence (reflexive field normaliser) against the implementation",
     },
+    "C12": {
+        "text": "Two layers. (1) Theorems in Coq (coq/Props/C12.v, closed under the global context) about a model in which "
+                "objects are seen by ==/hash/the caches only through their key: a memoised computation returns the pure "
+                "result for EVERY history, every correct cache content and every clearing point provided names are "
+                "hygienic (equal keys => equal attributes); the statement is refuted without hygiene (witness: 'Omega' as a "
+                "2-D then 3-D domain); results obtained by canonical sorting do not depend on the order of members (hence not "
+                "on set iteration order / hash seed) when printed names are injective, refuted otherwise; boundary-condition "
+                "positions are stable unless a condition object is shared between equations (refuted witness). (2) The "
+                "runtime part - CPython's hash seed, sympy's cache configuration, earlier history in the interpreter - "
+                "cannot be exhibited by a theorem: it is EXPLORED by running 9 target computations of the real library in "
+                "separate interpreter processes (fresh vs after random hygienic / name-colliding histories, cache on/off/"
+                "cleared at random points, several PYTHONHASHSEED values, permuted operands / union members / "
+                "connectivity entries) and comparing with the fresh baseline; the hygiene label of each generated history "
+                "is decided inside Coq by the proved-sound test faithful_b.",
+        "design_ref": "DESIGN.md section 5 C12",
+        "note": "Partial by nature: the proof covers the memoisation / canonical-order / in-place-mutation logic of the model; "
+                "the interpreter-level behaviour is sampled, not proved (labelled in the evidence). Trusted: Coq kernel, the "
+                "runner tools/impl/C12_impl.py (targets, history operations), the digest of attributes used for the hygiene "
+                "test. Known findings: identity by name (stale cache after a same-name different-dimension history) and "
+                "the shared EssentialBC position write.",
+        "technique": "Coq proof (refinement of a memoised computation by induction over histories; canonical sorting) + "
+                     "multi-process differential exploration of the real runtime",
+    },
     "C14": {
         "text": "Theorems in Coq (coq/Props/C14.v, 16 obligations, closed under the global context) about an executable model "
                 "of Union.__new__/complement/iteration: the result is the sorted duplicate-free list of exactly the supplied "
